@@ -5,6 +5,8 @@ Records the AST fingerprints of every property's anchored source files of /repo'
 runs with the thorough budget. Run --update after every fix: commit (the record must describe the tree the checks were
 last validated against)."""
 import sys, os, json
+if os.path.realpath(sys.executable) != os.path.realpath("/venv/bin/python") and os.path.exists("/venv/bin/python"):
+    os.execv("/venv/bin/python", ["/venv/bin/python"] + sys.argv)    # ast.dump differs between interpreter versions: always the checks' interpreter
 sys.path.insert(0, os.path.dirname(os.path.abspath(__file__)))
 os.environ.setdefault("VERIF_ISOLATED", "x")
 import common as cm
